@@ -204,10 +204,13 @@ func runC05(args []string) error {
 		if thorough {
 			nsl = 32768
 		}
-		d := make([]byte, nsl*s-1)
+		// exactly nsl slices in two files, both ending in a partial slice (32768 is the format's limit)
+		n2 := nsl / 3
+		d := make([]byte, nsl*s)
 		rng.Read(d)
-		d2 := d[:len(d)/3]
-		if err := createAndObserve(lg, dir, []string{"big.bin", "x/big2.bin"}, [][]byte{d[len(d)/3:], d2}, s, 3, 16, "many slices", nil, budget); err != nil {
+		d2 := d[:n2*s-1]
+		d1 := d[n2*s : nsl*s-2]
+		if err := createAndObserve(lg, dir, []string{"big.bin", "x/big2.bin"}, [][]byte{d1, d2}, s, 3, 16, "many slices", nil, budget); err != nil {
 			return err
 		}
 	}
